@@ -24,8 +24,12 @@ coverage.facets.*.classes, that show the axis is populated; "r3" = added in exte
      computed in between                | parameters, other methods of the same live object in   | k, caller-overwrote-returned-arrays (r3),
                                         | between; (7) returned values are not rewritten later;  | returned-arrays-watched, cwd-holds-files-
                                         | (8, r3) the CALLER overwrites what was returned, new   | of-earlier-calls (r3)
-                                        | objects must reproduce the first results; (10, r3) the |
-                                        | working directory is the one the call was made in      |
+                                        | objects must reproduce the first results; (11, r3) the | known-printoptions-left-by-Nnearests
+                                        | PROCESS-GLOBAL state (numpy error handling and print   | (the one known leak, excluded exactly)
+                                        | options, warnings filters, cwd, environ, logging, the  |
+                                        | global RNGs, pandas options, open descriptors, ...) is |
+                                        | what it was just before the call; nothing is reset     |
+                                        | between calls, so a leak also hits the later calls     |
   S5 output file holds the returned     | (3) inside each entry: every token within half a unit  | with-output-file, result-holds-nan-or-inf-
      values to the written precision    | of its last digit, NaN / inf tokens, .npy exact, header | and-file-requested, output-file-name-in-a-
                                         | = columns, row / column counts; a file of that name    | subdirectory (r3), cwd-holds-files-of-
@@ -82,7 +86,19 @@ PyMatterSim they exercise is measured, see `flag_coverage`).  After EVERY step:
   (9) (r3) the mutable default values in the signatures of all public callables (found by introspection: 22 ppp arrays /
       diameters / radii dicts / fits(p0=[])) have the state they had before the first call; entries with "dflt" in their
       parameter set OMIT those keywords where the default describes the world.             [c18_inventory.check_defaults]
- (10) (r3) a call returns in the working directory it was made in.                          [run_entry]
+ (10) (r3) a call returns in the working directory it was made in.                          [part of (11)]
+ (11) (r3, after the miss of seeded C18-E) PROCESS-GLOBAL STATE: a snapshot taken just before every single call of the code
+      under test -- np.geterr(), np.geterrcall(), np.get_printoptions(), warnings.filters, os.getcwd(), os.environ, the
+      logging root (level, handlers, disable level), np.random.get_state(), random.getstate(), pandas display / compute
+      options, decimal context, locale, number of open file descriptors, sys.path, recursion limit -- is compared with the
+      state right after the call (also when the call raised).  The harness sets the state every call starts from ONCE
+      per process (np.seterr(all="ignore"), warnings ignored) and resets nothing between calls: what a call leaves
+      behind is what the next call meets, so a later call of an underflow- / 0-division-sensitive routine (S2 with narrow
+      smearing, gaussian_blurring with sigma 0.02, conditions selecting nobody) that raises where the same call returned
+      a value before is ALSO reported, by (2).  Only after a leak has been reported is the state put back (so that the
+      shrinking is not judged in the leaked state).  Known on the unchanged tree and excluded exactly (tag known-
+      printoptions-left-by-Nnearests; VERIF_STRICT=1 removes the exclusion): Nnearests leaves
+      np.set_printoptions(threshold=inf, linewidth=inf) behind.                              [check_process_state]
 Analysis objects (gr / sq / boo_3d / boo_2d / Dynamics / LogDynamics / S2 / NematicOrder / HessianMatrix / DumpReader)
 are, when `reuse` is drawn (2 in 3 calls), kept alive and shared between the calls of the history, as in an interactive
 session: method chains on one live object in any order with other methods in between.  The expected result never
@@ -138,7 +154,7 @@ import numpy as np
 from hypothesis import strategies as st
 from hypothesis.stateful import initialize, invariant, precondition, rule
 
-from ..harness import Facet, RecordingMachine, Violation, exception_from_cut
+from ..harness import STRICT, Facet, RecordingMachine, Violation, exception_from_cut
 from .c18_entries import CATALOGUE, FAMILIES, Ctx, eligible
 from .c18_inventory import NOT_RUNNABLE, SKIP_MODULES, CallTracer, check_defaults, default_objects, flag_report, inventory
 from .c18_world import DEGENERATE, ORIGINS, VARIANTS, World, detach, fingerprint, has_arrays, same
@@ -195,6 +211,11 @@ ASSUMPTIONS = [
     "to any other name); the directory part of a name exists before the call",
     "the per-vector table sq writes next to its csv (saveqvectors) and the spectra file of vector_fft_corr are not "
     "returned: their text is compared between repeated calls only",
+    "process-global state (11): the harness itself sets np.seterr(all='ignore') and warnings.simplefilter('ignore') once "
+    "per process and never resets them around a call; a difference between the snapshot before a call and the state after "
+    "it is attributed to that call (the entries' own harness code only reads files the call wrote).  Nnearests' "
+    "np.set_printoptions(threshold=inf, linewidth=inf) is a known, reported leak and excluded exactly (VERIF_STRICT=1 "
+    "includes it); it changes no result of the library (only Nnearests / voronowalls print arrays)",
     "the GSD / DCD readers and the voro++ wrappers are not exercised (packages / executable absent; C19 drives read_gsd "
     "with duck-typed frames); every other public callable found by introspection is called directly by some entry",
 ]
@@ -208,7 +229,9 @@ MANIFEST = {
             "results), 1-5 frames (8 thorough), N 8-28 (150 thorough); round 3: the mutable default arguments of all public "
             "signatures are watched like passed arguments, dict / list arguments are compared with their order, the caller "
             "overwrites returned arrays and repeats through new objects, calls of a session share one working directory "
-            "(pre-existing output files), file names with a directory; chains facet = method chains of one class on one live "
+            "(pre-existing output files), file names with a directory, process-global state (numpy error handling / print "
+            "options, warnings filters, cwd, environ, logging, global RNGs, pandas options, open descriptors) compared "
+            "before / after every call with nothing reset in between; chains facet = method chains of one class on one live "
             "object; flag_coverage = deterministic sweep of every (entry, parameter set, output on/off) + completeness "
             "self-check (every flag keyword takes all its values); sweep_nonfinite / sweep_sizes = the sweep in degenerate "
             "worlds / on N = 100, 101 and 7-8 frames; single_* and sizes facets = the same checks per entry point in "
@@ -275,6 +298,114 @@ def _nonfinite(x):
     return isinstance(x, (float, complex, np.floating, np.complexfloating)) and not np.isfinite(x)
 
 
+# ---- process-global state (invariant 11).  The harness sets, ONCE per process, the state every call starts from -- numpy
+# floating-point errors ignored (0/0 -> NaN in degenerate bins is a value, compared as such, not an event) and warnings
+# silenced -- and never resets it between calls: what a call leaves behind is what the next call meets.
+np.seterr(all="ignore")
+warnings.simplefilter("ignore")
+
+
+def _pandas_options():
+    import pandas as pd
+    out = []
+    for opt in ("display.precision", "display.float_format", "display.max_rows", "display.max_columns",
+                "compute.use_numexpr", "compute.use_bottleneck", "mode.chained_assignment", "future.infer_string"):
+        try:
+            out.append((opt, repr(pd.get_option(opt))))
+        except Exception:  # noqa: BLE001 - option unknown to this pandas
+            pass
+    return out
+
+
+def process_state():
+    """What a routine can leave behind without touching any array: the process-wide settings and resources that LATER calls
+    depend on.  {label: comparable value}."""
+    import decimal
+    import locale
+    import logging
+    import random
+    import sys
+    st = np.random.get_state()
+    try:
+        nfd = len(os.listdir("/proc/self/fd"))
+    except OSError:
+        nfd = -1
+    return {
+        "numpy's floating-point error handling (np.geterr())": dict(np.geterr()),
+        "numpy's error callback (np.geterrcall())": repr(np.geterrcall()),
+        "numpy's print options (np.get_printoptions())": sorted((k, repr(v)) for k, v in np.get_printoptions().items()),
+        "the warnings filters (warnings.filters)": [repr(f) for f in warnings.filters],
+        "the working directory (os.getcwd())": os.getcwd(),
+        "the environment (os.environ)": dict(os.environ),
+        "the logging root (level, handlers, logging.disable level)": (logging.root.level, len(logging.root.handlers),
+                                                                      logging.root.manager.disable),
+        "numpy's global random state (np.random.get_state())": (st[0], st[1].tobytes(), st[2], st[3], st[4]),
+        "Python's global random state (random.getstate())": random.getstate(),
+        "pandas options": _pandas_options(),
+        "the decimal context": repr(decimal.getcontext()),
+        "the locale": locale.setlocale(locale.LC_ALL),
+        "the number of open file descriptors": nfd,
+        "sys.path / recursion limit": (list(sys.path), sys.getrecursionlimit()),
+    }
+
+
+def _restore_process_state(before):
+    """After a leak has been REPORTED the harness puts the settings back (best effort), so that the shrinking and the other
+    cases of this process are not judged in the state the defect left behind."""
+    import random
+    try:
+        np.seterr(**before["numpy's floating-point error handling (np.geterr())"])
+        np.set_printoptions(**{k: eval(v, {"nan": float("nan"), "inf": float("inf")})  # noqa: S307 - reprs of plain values
+                               for k, v in before["numpy's print options (np.get_printoptions())"] if k != "formatter"})
+    except Exception:  # noqa: BLE001
+        pass
+    try:
+        os.environ.clear()
+        os.environ.update(before["the environment (os.environ)"])
+        st = before["numpy's global random state (np.random.get_state())"]
+        np.random.set_state((st[0], np.frombuffer(st[1], dtype=np.uint32), st[2], st[3], st[4]))
+        random.setstate(before["Python's global random state (random.getstate())"])
+    except Exception:  # noqa: BLE001
+        pass
+
+
+# KNOWN on the unchanged tree (reported, not repaired; VERIF_STRICT=1 switches the exclusion off): Nnearests (and the voro++
+# wrapper voronowalls) call np.set_printoptions(threshold=np.inf, linewidth=np.inf) before writing their table with
+# np.array2string and never put the caller's settings back.  Exactly that is excluded -- these two options, set to inf, by
+# Nnearests -- and counted (tag known-printoptions-left-by-Nnearests); every other option, value and entry is compared.
+_PO = "numpy's print options (np.get_printoptions())"
+
+
+def _known_printoptions(name, before, now):
+    if STRICT or name != "Nnearests":
+        return False
+    b, n = dict(before[_PO]), dict(now[_PO])
+    diff = {k for k in set(b) | set(n) if b.get(k) != n.get(k)}
+    return bool(diff) and diff <= {"threshold", "linewidth"} and all(n[k] == "inf" for k in diff)
+
+
+def check_process_state(before, after_what, name=None, note=None):
+    now = process_state()
+    for label, v in before.items():
+        if now[label] != v:
+            if label == _PO and _known_printoptions(name, before, now):
+                if note:
+                    note("known-printoptions-left-by-Nnearests")
+                continue
+            a, b = v, now[label]
+            if isinstance(v, dict):
+                keys = sorted(k for k in set(v) | set(b) if v.get(k) != b.get(k))
+                a, b = {k: v.get(k) for k in keys[:4]}, {k: b.get(k) for k in keys[:4]}
+            elif isinstance(v, list) and len(v) > 6:
+                a, b = f"{len(v)} entries", f"{len(b)} entries, e.g. {[x for x in b if x not in v][:2]}"
+            elif "random state" in label:
+                a, b = "(state before the call)", "(another state: the routine seeded or consumed the caller's generator)"
+            _restore_process_state(before)
+            _fail(f"after {after_what}: the call left process-global state changed -- {label}: {a!r:.300} -> {b!r:.300}.  No array "
+                  f"was touched, but what LATER analyses return (or whether they return at all) now depends on this call "
+                  f"having run before them.")
+
+
 def run_entry(w, name, p, out, objs, tag, note=None):
     """One call of a catalogue entry in a fresh output directory (cwd during the call).  Returns (key, result).
     In an off-domain world (w.tolerant) an exception raised inside PyMatterSim is a refusal of the input, not a
@@ -298,24 +429,22 @@ def run_entry(w, name, p, out, objs, tag, note=None):
     os.chdir(calldir)
     default_objects()  # frozen before the first call of the process
     _poison()
+    # (11) snapshot of the process-global state taken just before THIS call; nothing is reset by the harness around it
+    before = process_state()
     try:
-        # 0/0 -> NaN in degenerate bins etc. is a value (compared as such), not an event: silence the warnings
-        with warnings.catch_warnings(), np.errstate(all="ignore"):
-            warnings.simplefilter("ignore")
-            try:
-                res = fn(w, q, out, Ctx(objs, style=key[1] % 2))
-                if os.path.realpath(os.getcwd()) != os.path.realpath(calldir):
-                    _fail(f"{tag} {name}({q}, out={out}) returned with another working directory ({os.getcwd()!r}) than it "
-                          f"was called in: files requested by relative name from now on are written elsewhere")
-            except Violation:
+        try:
+            res = fn(w, q, out, Ctx(objs, style=key[1] % 2))
+        except Violation:
+            raise
+        except Exception as e:  # noqa: BLE001
+            check_process_state(before, f"{tag} {name}({q}, out={out}) [which raised {type(e).__name__}]", name, note)
+            if not (w.tolerant and exception_from_cut(e)):
                 raise
-            except Exception as e:  # noqa: BLE001
-                if not (w.tolerant and exception_from_cut(e)):
-                    raise
-                res = (REJECTED, type(e).__name__)
-                if note:
-                    note(REJECTED)
-                    note(f"{REJECTED}:{name}")
+            res = (REJECTED, type(e).__name__)
+            if note:
+                note(REJECTED)
+                note(f"{REJECTED}:{name}")
+        check_process_state(before, f"{tag} {name}({q}, out={out})", name, note)
     finally:
         os.chdir(old)
         if not session:
@@ -538,7 +667,7 @@ def _size(k):
 N_ST = st.integers(0, 2 ** 16).map(_size)
 # thorough-tier facets (machine_deep, sizes): longer trajectories, larger systems (N = 100, 101: around a block size of 100)
 T_DEEP = st.sampled_from([1, 2, 3, 4, 5, 6, 7, 8])
-_BIG = [64, 99, 100, 101, 128, 150]
+_BIG = [63, 64, 65, 99, 100, 101, 127, 128, 129, 133, 150, 199, 201]
 
 
 def _size_deep(k):
@@ -549,7 +678,7 @@ def _size_deep(k):
 
 
 N_DEEP = st.integers(0, 2 ** 16).map(_size_deep)
-N_BIG = st.sampled_from([64, 99, 100, 101, 128])
+N_BIG = st.sampled_from([63, 64, 65, 99, 100, 101, 127, 128, 129])  # B - 1, B, B + 1 around block sizes 64, 100, 128
 
 
 def world_tags(kw):
@@ -557,6 +686,7 @@ def world_tags(kw):
     return [f"d{kw['d']}", f"origin-{kw['origin']}", f"cell-{kw['cell']}", f"K{kw['K']}", f"T{kw['T']}",
             f"N{'8-11' if N < 12 else '12-16' if N < 17 else '17-40' if N <= 40 else '64-99' if N < 100 else '100+'}",
             "dict-and-list-arguments-" + ("ascending" if kw["seed"] % 3 == 0 else "not-sorted"),
+            *([f"size-boundary-{N}"] if N >= 63 else []),
             f"world-{kw.get('variant', 'plain')}",
             "world-ordinary" if kw.get("variant", "plain") == "plain" else
             ("world-degenerate" if kw.get("variant") in DEGENERATE else "world-off-domain")]
@@ -1037,6 +1167,7 @@ SWEEP_WORLDS = [
 SWEEP_SIZES = [
     (False, None, dict(d=3, N=101, T=2, K=2, origin="arbitrary", cell="ortho", variant="plain"), 1),
     (False, None, dict(d=2, N=100, T=2, K=1, origin="centred", cell="tri", variant="plain"), 1),
+    (False, None, dict(d=2, N=129, T=1, K=2, origin="zero", cell="ortho", variant="plain", seed0=1), 1),
     (False, _TIME, dict(d=2, N=8, T=8, K=2, origin="zero", cell="ortho", variant="plain")),
     (False, _TIME, dict(d=3, N=8, T=7, K=1, origin="arbitrary", cell="tri", variant="logtimes")),
 ]
@@ -1258,7 +1389,7 @@ FACETS = [
           rule="the deterministic sweep on two larger systems (N = 100, 101; first parameter set of every entry) and two long "
                "trajectories (8 and 7 frames; time-dependent families)"),
     Facet("sizes", sizes_st(), check_single, quick=10, thorough=480, describe=describe_single, shards_quick=2,
-          rule="one entry of any family on a larger system (N in 64, 99, 100, 101, 128; 1-3 frames): call / purity / other "
+          rule="one entry of any family on a larger system (N = B - 1, B, B + 1 for block sizes B = 64, 100, 128; 1-3 frames): call / purity / other "
                "parameters / call again / deep copy / caller overwrites the returned arrays / call again"),
     Facet("machine_deep", machine=PurityMachineDeep, quick=0, thorough=1200, steps=30, describe=describe_machine,
           rule="thorough tier only: the histories of `machine` with up to 30 steps, 1-8 frames, N up to 40 (sometimes 64-150)"),
